@@ -32,6 +32,34 @@ var backends = []backend{
 	}},
 }
 
+// portfolio: the same solvers under other random seeds / instantiation settings. Quantifier-heavy queries have
+// erratic run times; a portfolio makes the outcome much less dependent on luck.
+var portfolio = []backend{
+	// without array extensionality: sound (a weaker theory can only lose proofs), and it avoids the quadratic
+	// extensionality case splits over the many map/struct-valued heap cells, which dominate the big VCs
+	{name: "z3-5.1.0/noext", cmd: func(f string, t int) []string {
+		return []string{"z3-new", "-smt2", fmt.Sprintf("-T:%d", t), "smt.array.extensional=false", f}
+	}},
+	{name: "z3-4.8.12/noext", cmd: func(f string, t int) []string {
+		return []string{"z3", "-smt2", fmt.Sprintf("-T:%d", t), "smt.array.extensional=false", f}
+	}},
+	{name: "z3-5.1.0/noext-seed7", cmd: func(f string, t int) []string {
+		return []string{"z3-new", "-smt2", fmt.Sprintf("-T:%d", t), "smt.array.extensional=false", "smt.random_seed=7", f}
+	}},
+	{name: "z3-5.1.0/seed7", cmd: func(f string, t int) []string {
+		return []string{"z3-new", "-smt2", fmt.Sprintf("-T:%d", t), "smt.random_seed=7", "sat.random_seed=7", f}
+	}},
+	{name: "z3-5.1.0/seed42", cmd: func(f string, t int) []string {
+		return []string{"z3-new", "-smt2", fmt.Sprintf("-T:%d", t), "smt.random_seed=42", "smt.qi.eager_threshold=20", f}
+	}},
+	{name: "z3-4.8.12/seed7", cmd: func(f string, t int) []string {
+		return []string{"z3", "-smt2", fmt.Sprintf("-T:%d", t), "smt.random_seed=7", f}
+	}},
+	{name: "z3-4.8.12/norelevancy", cmd: func(f string, t int) []string {
+		return []string{"z3", "-smt2", fmt.Sprintf("-T:%d", t), "smt.random_seed=3", "smt.relevancy=0", f}
+	}},
+}
+
 type solveResult struct {
 	status  string // unsat | sat | unknown | timeout | error
 	backend string
@@ -69,11 +97,11 @@ func runOne(ctx context.Context, b backend, file string, timeoutS int) (string, 
 func solve(dir, name, text string, timeoutS int, only []string) solveResult {
 	if len(only) == 0 && timeoutS > 3 {
 		// stage 1: the usually fastest back end alone on a short budget; stage 2: race all of them
-		r := solveWith(dir, name, text, 3, []string{"z3-5.1.0"})
+		r := solveWith(dir, name, text, 3, []string{"z3-5.1.0", "z3-5.1.0/noext"})
 		if r.status == "unsat" || r.status == "sat" {
 			return r
 		}
-		r2 := solveWith(dir, name, text, timeoutS, nil)
+		r2 := solveWith(dir, name, text, timeoutS, []string{"portfolio"})
 		r2.timeS += r.timeS
 		return r2
 	}
@@ -91,7 +119,14 @@ func solveWith(dir, name, text string, timeoutS int, only []string) solveResult 
 	ch := make(chan r, len(backends))
 	n := 0
 	start := time.Now()
-	for _, b := range backends {
+	bs := append(append([]backend{}, backends...), portfolio...)
+	if len(only) == 1 && only[0] == "portfolio" {
+		only = nil
+	} else if len(only) == 0 {
+		bs = backends
+	}
+	ch = make(chan r, len(bs))
+	for _, b := range bs {
 		if len(only) > 0 && !contains(only, b.name) {
 			continue
 		}
